@@ -8,10 +8,13 @@
 package main
 
 import (
+	"bytes"
 	"context"
 	"crypto"
 	"crypto/ecdsa"
+	"crypto/sha256"
 	"encoding/base64"
+	"encoding/json"
 	"errors"
 	"flag"
 	"fmt"
@@ -236,11 +239,114 @@ type reply struct {
 	mirror *fault // mirror STH storage error
 	proof  *[]int // consistency / entry-and-proof: nil = absent
 	proofs [][]int
-	leaves func(start, count int64) []leafSpec
-	eleaf  eleafSpec
-	// oracle label: none | rpc | malformed | beyond-tree | unknown-hash | mixed
+	// get-proof-by-hash: the proofs of the reply with explicit leaf indices and node bytes, in reply order
+	// (nil: proof i of `proofs` has leaf index i and zero-filled nodes); `proofs` is then their length view
+	mproofs []proofSpec
+	tree    *refTree // the proofs were cut from this tree (unmutated ones verify against it)
+	leaves  func(start, count int64) []leafSpec
+	eleaf   eleafSpec
+	// oracle label: none | rpc | malformed | beyond-tree | unknown-hash | mixed | later-malformed
+	// (later-malformed: the first proof of a several-proof reply is sound, a later one has a wrong-size node:
+	// the answer is an error or serves a sound proof)
 	cause string
 	class string // tag
+}
+
+// ---------------------------------------------------------------- reference Merkle tree (RFC 6962 section 2.1, written out here)
+
+type proofSpec struct {
+	idx   int64
+	nodes [][]byte
+}
+
+func (p proofSpec) lens() []int {
+	out := []int{}
+	for _, n := range p.nodes {
+		out = append(out, len(n))
+	}
+	return out
+}
+func (p proofSpec) sound() bool {
+	for _, n := range p.nodes {
+		if len(n) != 32 {
+			return false
+		}
+	}
+	return true
+}
+func (p proofSpec) same(idx int64, nodes [][]byte) bool {
+	if p.idx != idx || len(p.nodes) != len(nodes) {
+		return false
+	}
+	for i := range nodes {
+		if !bytes.Equal(p.nodes[i], nodes[i]) {
+			return false
+		}
+	}
+	return true
+}
+
+func merkleLeaf(d []byte) []byte {
+	h := sha256.Sum256(append([]byte{0}, d...))
+	return h[:]
+}
+func merkleNode(l, r []byte) []byte {
+	h := sha256.Sum256(append(append([]byte{1}, l...), r...))
+	return h[:]
+}
+
+// largest power of two strictly below n (n >= 2)
+func splitPoint(n int64) int64 {
+	k := int64(1)
+	for k<<1 < n {
+		k <<= 1
+	}
+	return k
+}
+
+type refTree struct{ leaves [][]byte } // leaf hashes
+
+func mth(l [][]byte) []byte {
+	if len(l) == 1 {
+		return l[0]
+	}
+	k := splitPoint(int64(len(l)))
+	return merkleNode(mth(l[:k]), mth(l[k:]))
+}
+func auditPath(m int64, l [][]byte) [][]byte {
+	if len(l) == 1 {
+		return nil
+	}
+	k := splitPoint(int64(len(l)))
+	if m < k {
+		return append(auditPath(m, l[:k]), mth(l[k:]))
+	}
+	return append(auditPath(m-k, l[k:]), mth(l[:k]))
+}
+func (t *refTree) root(n int64) []byte { return mth(t.leaves[:n]) }
+func (t *refTree) proof(m, n int64) proofSpec {
+	return proofSpec{idx: m, nodes: auditPath(m, t.leaves[:n])}
+}
+
+// rootFromPath recomputes the root of the n-leaf tree from leaf m's hash and its audit path; false if
+// the path does not have the shape of an audit path for (m, n).
+func rootFromPath(m, n int64, leaf []byte, p [][]byte) ([]byte, bool) {
+	if m < 0 || m >= n {
+		return nil, false
+	}
+	if n == 1 {
+		return leaf, len(p) == 0
+	}
+	if len(p) == 0 {
+		return nil, false
+	}
+	k, last := splitPoint(n), p[len(p)-1]
+	if m < k {
+		sub, ok := rootFromPath(m, k, leaf, p[:len(p)-1])
+		return merkleNode(sub, last), ok
+	}
+	sub, ok := rootFromPath(m-k, n-k, leaf, p[:len(p)-1])
+	return merkleNode(last, sub), ok
 }
 
 // ---------------------------------------------------------------- requests
@@ -304,6 +410,9 @@ type world struct {
 	order    []cfgKey
 	logKey   crypto.Signer
 	hash64   string
+	tree     *refTree // reference tree in which one leaf value occurs several times
+	occ      []int64  // ... at these indices (ascending)
+	occHash  string   // base64 of that leaf's hash
 }
 
 func chainBody(es ...[]byte) []byte {
@@ -377,6 +486,13 @@ type spec struct {
 }
 
 func coqBool(b bool) string { return lib.Bool(b) }
+
+func merge(a, b map[string]interface{}) map[string]interface{} {
+	for k, v := range b {
+		a[k] = v
+	}
+	return a
+}
 
 func mapperCoq(m map[string]int) string {
 	var keys []string
@@ -452,6 +568,8 @@ func (wd *world) run(s spec) {
 	be := env.Backend
 	backendCoq := "bk0"
 	var leavesSent []leafSpec
+	var proofsSent []proofSpec
+	var consSent [][]byte
 	be.QueueLeafFn = func(_ context.Context, rq *trillian.QueueLeafRequest) (*trillian.QueueLeafResponse, error) {
 		if rep.err != nil {
 			return nil, rep.err.goErr()
@@ -485,6 +603,7 @@ func (wd *world) run(s spec) {
 		}
 		rsp := &trillian.GetConsistencyProofResponse{SignedLogRoot: rep.root.proto()}
 		if rep.proof != nil {
+			consSent = hashes(*rep.proof)
 			rsp.Proof = &trillian.Proof{Hashes: hashes(*rep.proof)}
 		}
 		return rsp, nil
@@ -494,8 +613,20 @@ func (wd *world) run(s spec) {
 			return nil, rep.err.goErr()
 		}
 		rsp := &trillian.GetInclusionProofByHashResponse{SignedLogRoot: rep.root.proto()}
-		for i, p := range rep.proofs {
-			rsp.Proof = append(rsp.Proof, &trillian.Proof{LeafIndex: int64(i), Hashes: hashes(p)})
+		proofsSent = nil
+		if rep.mproofs != nil {
+			proofsSent = append(proofsSent, rep.mproofs...)
+		} else {
+			for i, p := range rep.proofs {
+				proofsSent = append(proofsSent, proofSpec{idx: int64(i), nodes: hashes(p)})
+			}
+		}
+		for _, p := range proofsSent {
+			var hs [][]byte
+			for _, n := range p.nodes {
+				hs = append(hs, append([]byte{}, n...))
+			}
+			rsp.Proof = append(rsp.Proof, &trillian.Proof{LeafIndex: p.idx, Hashes: hs})
 		}
 		return rsp, nil
 	}
@@ -649,6 +780,7 @@ func (wd *world) run(s spec) {
 
 	// ---- the direct property oracle (the property's sentences on what was observed)
 	propOK, note := true, ""
+	var served map[string]interface{}
 	fail := func(f string, a ...interface{}) {
 		if propOK {
 			propOK, note = false, fmt.Sprintf(f, a...)
@@ -671,7 +803,7 @@ func (wd *world) run(s spec) {
 				fail("bad request got an SCT: %s", ep)
 			}
 		}
-		faultInjected := rep.cause != "none" && rep.cause != "mixed"
+		faultInjected := rep.cause != "none" && rep.cause != "mixed" && rep.cause != "later-malformed"
 		if called && faultInjected {
 			if code == 200 {
 				fail("fault surfaced as 200: %s", where)
@@ -724,6 +856,65 @@ func (wd *world) run(s spec) {
 				}
 			}
 		}
+		// whatever a proof-only endpoint serves with 200 is a well-formed proof: every node a SHA-256 value,
+		// the proof one the backend gave (index and nodes of the same proof), and, where the backend's proofs
+		// were cut from the reference tree, one that verifies for the requested hash and tree size
+		if code == 200 && ep == "get-proof-by-hash" {
+			var got struct {
+				LeafIndex *int64    `json:"leaf_index"`
+				AuditPath *[][]byte `json:"audit_path"`
+			}
+			if err := json.Unmarshal(rec.Body.Bytes(), &got); err != nil || got.LeafIndex == nil || got.AuditPath == nil {
+				fail("200 with a body that is no get-proof-by-hash response: %s", where)
+			} else {
+				servedIdx, servedPath := *got.LeafIndex, *got.AuditPath
+				served = map[string]interface{}{"leaf_index": servedIdx, "audit_path_node_sizes": proofSpec{nodes: servedPath}.lens()}
+				for i, nd := range servedPath {
+					if len(nd) != sha256.Size {
+						fail("200 with a malformed audit path (node %d of %d has %d bytes, leaf_index %d): %s", i, len(servedPath), len(nd), servedIdx, where)
+					}
+				}
+				given := false
+				for _, p := range proofsSent {
+					given = given || p.same(servedIdx, servedPath)
+				}
+				if !given {
+					fail("200 with a proof the backend did not give (leaf_index %d, %d nodes): %s", servedIdx, len(servedPath), where)
+				}
+				if rep.tree != nil {
+					want, _ := base64.StdEncoding.DecodeString(get("hash"))
+					ts, _ := pint("tree_size")
+					if ts >= 1 && ts <= int64(len(rep.tree.leaves)) {
+						if rt, ok := rootFromPath(servedIdx, ts, want, servedPath); !ok || !bytes.Equal(rt, rep.tree.root(ts)) {
+							fail("200 with a proof that does not verify (leaf_index %d, tree_size %d): %s", servedIdx, ts, where)
+						}
+					}
+				}
+			}
+		}
+		if code == 200 && ep == "get-sth-consistency" {
+			var got struct {
+				Consistency *[][]byte `json:"consistency"`
+			}
+			if err := json.Unmarshal(rec.Body.Bytes(), &got); err != nil || got.Consistency == nil {
+				fail("200 with a body that is no get-sth-consistency response: %s", where)
+			} else {
+				served = map[string]interface{}{"consistency_node_sizes": proofSpec{nodes: *got.Consistency}.lens()}
+				for i, nd := range *got.Consistency {
+					if len(nd) != sha256.Size {
+						fail("200 with a malformed consistency proof (node %d has %d bytes): %s", i, len(nd), where)
+					}
+				}
+				if called && !(proofSpec{nodes: consSent}).same(0, *got.Consistency) {
+					fail("200 with a consistency proof the backend did not give: %s", where)
+				}
+			}
+		}
+		if rep.cause == "later-malformed" && called {
+			if code != 200 && (code < 500 || code > 599) {
+				fail("malformed later proof answered %d (want 200 with a sound proof, or 5xx): %s", code, where)
+			}
+		}
 		if code != 200 && !errorPage {
 			fail("non-200 without an error page: %s status=%d", where, code)
 		}
@@ -742,13 +933,22 @@ func (wd *world) run(s spec) {
 	if called {
 		tags = append(tags, "backend-called")
 	}
+	input := map[string]interface{}{}
+	if ep == "get-proof-by-hash" && len(proofsSent) > 0 && (rep.mproofs != nil || len(proofsSent) > 1) {
+		var ps []interface{}
+		for _, p := range proofsSent {
+			ps = append(ps, map[string]interface{}{"leaf_index": p.idx, "node_sizes": p.lens()})
+		}
+		input["backend_proofs"] = ps
+		input["proofs_from_reference_tree"] = rep.tree != nil
+	}
 	wd.w.Add(lib.Case{
 		Coq: coq,
-		Input: map[string]interface{}{"endpoint": ep, "method": s.req.method, "query": s.req.query, "body_class": s.req.bodyCls,
+		Input: merge(input, map[string]interface{}{"endpoint": ep, "method": s.req.method, "query": s.req.query, "body_class": s.req.bodyCls,
 			"config": cfgs, "mapper": mp, "backend_reply": rep.class, "cause": rep.cause, "write_fails": s.writeFail, "store_fails": s.storeFail,
-			"max_get_entries": s.maxr, "align": s.align, "backend_coq": backendCoq},
+			"max_get_entries": s.maxr, "align": s.align, "backend_coq": backendCoq}),
 		Impl: map[string]interface{}{"panicked": panicked, "status": code, "error_page": errorPage, "error_text_shown": detail,
-			"sct_issued": len(issued), "request_log_status": statuses, "backend_calls": callNames},
+			"sct_issued": len(issued), "request_log_status": statuses, "backend_calls": callNames, "served": served},
 		PropOK: propOK, Note: note, Tags: tags,
 	})
 }
@@ -961,6 +1161,134 @@ func (wd *world) badRequests(ep string) []request {
 	return out
 }
 
+// ---------------------------------------------------------------- several proofs in one GetInclusionProofByHash reply
+
+const treeLeaves = 13
+
+func (wd *world) buildTree() {
+	wd.occ = []int64{0, 1, 4, 6, 11}
+	rep := merkleLeaf([]byte("c08 leaf value logged more than once"))
+	wd.tree = &refTree{}
+	for i := int64(0); i < treeLeaves; i++ {
+		wd.tree.leaves = append(wd.tree.leaves, merkleLeaf([]byte(fmt.Sprintf("c08 leaf %d", i))))
+	}
+	for _, i := range wd.occ {
+		wd.tree.leaves[i] = rep
+	}
+	wd.occHash = base64.StdEncoding.EncodeToString(rep)
+}
+
+// occurrences of the repeated leaf below tree size ts
+func (wd *world) occBelow(ts int64) []int64 {
+	var out []int64
+	for _, i := range wd.occ {
+		if i < ts {
+			out = append(out, i)
+		}
+	}
+	return out
+}
+
+type badNode struct{ proof, pos, size int }
+
+func resize(n []byte, size int) []byte {
+	out := make([]byte, size)
+	copy(out, n)
+	return out
+}
+
+func (r *reply) setProofs(ps []proofSpec) {
+	r.mproofs, r.proofs = append([]proofSpec{}, ps...), nil
+	for _, p := range ps {
+		r.proofs = append(r.proofs, p.lens())
+	}
+}
+
+// multiProofReply: the backend answers the request (repeated leaf's hash, tree_size ts) with the true audit
+// paths of the occurrences `order` (leaf indices, in this order), the nodes listed in bads resized.
+func (wd *world) multiProofReply(ts int64, order []int64, bads []badNode, slack uint64) reply {
+	r := goodReply("get-proof-by-hash", need{uint64(ts)}, 0)
+	r.root = okRoot(uint64(ts) + slack)
+	r.tree = wd.tree
+	var ps []proofSpec
+	for _, m := range order {
+		p := wd.tree.proof(m, ts)
+		p.nodes = append([][]byte{}, p.nodes...)
+		ps = append(ps, p)
+	}
+	firstBad, laterBad, rel := false, false, ""
+	for _, b := range bads {
+		if b.proof >= len(ps) || b.pos >= len(ps[b.proof].nodes) || b.size == 32 {
+			continue
+		}
+		ps[b.proof].nodes[b.pos] = resize(ps[b.proof].nodes[b.pos], b.size)
+		if b.proof == 0 {
+			firstBad = true
+			continue
+		}
+		laterBad = true
+		switch {
+		case order[b.proof] < order[0]:
+			rel += "-lower-index"
+		case order[b.proof] == order[0]:
+			rel += "-equal-index"
+		default:
+			rel += "-higher-index"
+		}
+	}
+	r.setProofs(ps)
+	switch {
+	case firstBad:
+		r.cause, r.class = "malformed", fmt.Sprintf("proofs:%d,first-malformed", len(ps))
+	case laterBad:
+		r.cause, r.class = "later-malformed", fmt.Sprintf("proofs:%d,later-malformed%s", len(ps), rel)
+	default:
+		r.cause, r.class = "none", fmt.Sprintf("proofs:%d,sound", len(ps))
+	}
+	return r
+}
+
+func (wd *world) multiProofRequest(ts int64) request {
+	return request{ep: "get-proof-by-hash", method: "GET", tag: "good:repeated-leaf",
+		query: q("hash", wd.occHash, "tree_size", strconv.FormatInt(ts, 10))}
+}
+
+// every ordered selection of 1..len(from) distinct elements, plus every element twice
+func orderedSelections(from []int64) [][]int64 {
+	var out [][]int64
+	var rec func(cur []int64, used uint)
+	rec = func(cur []int64, used uint) {
+		if len(cur) > 0 {
+			out = append(out, append([]int64{}, cur...))
+		}
+		for i, v := range from {
+			if used&(1<<uint(i)) == 0 {
+				rec(append(cur, v), used|1<<uint(i))
+			}
+		}
+	}
+	rec(nil, 0)
+	for _, v := range from {
+		out = append(out, []int64{v, v})
+	}
+	return out
+}
+
+// randomMultiProof: 1..4 occurrences (repeats allowed) in a random order, 0..2 nodes resized
+func (wd *world) randomMultiProof() (request, reply) {
+	ts := []int64{13, 12, 7, 5, 2, 1}[wd.r.Intn(6)]
+	occ := wd.occBelow(ts)
+	var order []int64
+	for n := 1 + wd.r.Intn(4); n > 0; n-- {
+		order = append(order, occ[wd.r.Intn(len(occ))])
+	}
+	var bads []badNode
+	for n := []int{0, 1, 1, 1, 2}[wd.r.Intn(5)]; n > 0; n-- {
+		bads = append(bads, badNode{wd.r.Intn(len(order)), wd.r.Intn(4), []int{0, 0, 1, 31, 33, 64}[wd.r.Intn(6)]})
+	}
+	return wd.multiProofRequest(ts), wd.multiProofReply(ts, order, bads, []uint64{0, 1, 1000}[wd.r.Intn(3)])
+}
+
 func (wd *world) randomMapper() map[string]int {
 	m := map[string]int{}
 	sts := []int{400, 404, 410, 429, 451, 499, 500, 502, 503, 507, 599}
@@ -1000,6 +1328,7 @@ func main() {
 	wd.preBody = chainBody(pre.DER, wd.root.DER)
 	wd.badBody = chainBody(stray.DER, wd.other.DER)
 	wd.hash64 = base64.StdEncoding.EncodeToString(make([]byte, 32))
+	wd.buildTree()
 
 	var logCfgs, mirrorCfgs []cfgKey
 	for _, mask := range []bool{false, true} {
@@ -1100,6 +1429,33 @@ func main() {
 		}
 	}
 
+	// ---- 3b. get-proof-by-hash when the hash occurs several times: every selection and order of the
+	// occurrences' proofs in the reply, sound and with each node of each proof resized (empty, short, long)
+	{
+		const ts = 5
+		k := logCfgs[0]
+		for _, order := range orderedSelections(wd.occBelow(ts)) {
+			s := base(k, "multi-proof")
+			s.req, s.rep = wd.multiProofRequest(ts), wd.multiProofReply(ts, order, nil, 1)
+			wd.run(s)
+			for pi, m := range order {
+				for pos := range wd.tree.proof(m, ts).nodes {
+					for _, size := range []int{0, 31, 33} {
+						s := base(k, "multi-proof")
+						s.req, s.rep = wd.multiProofRequest(ts), wd.multiProofReply(ts, order, []badNode{{pi, pos, size}}, 1)
+						wd.run(s)
+					}
+				}
+			}
+		}
+		cfgs := append(append([]cfgKey{}, logCfgs...), mirrorCfgs...)
+		for i, n := 0, lib.Count(250, 6000); i < n; i++ {
+			s := base(cfgs[wd.r.Intn(len(cfgs))], "multi-proof")
+			s.req, s.rep = wd.randomMultiProof()
+			wd.run(s)
+		}
+	}
+
 	// ---- 4. a random request sequence: faults at random positions, random parameters and sizes
 	all := append(append(append([]cfgKey{}, logCfgs...), mirrorCfgs...), frozenCfgs[0])
 	n := lib.Count(1500, 40000)
@@ -1150,6 +1506,13 @@ func main() {
 				for j := wd.r.Intn(3); j > 0; j-- {
 					s.rep.proofs = append(s.rep.proofs, []int{32, []int{32, 32, 0, 40}[wd.r.Intn(4)]})
 				}
+				if wd.r.Intn(2) == 0 { // leaf indices in no particular order
+					var ps []proofSpec
+					for _, p := range s.rep.proofs {
+						ps = append(ps, proofSpec{idx: int64(wd.r.Intn(6)), nodes: hashes(p)})
+					}
+					s.rep.setProofs(ps)
+				}
 			}
 			s.rep.eleaf = eleafSpec{absent: wd.r.Intn(3) == 0, valueLen: wd.r.Intn(3), fixable: wd.r.Intn(3) > 0}
 			mode, fx := wd.r.Intn(5), wd.r.Intn(4) > 0
@@ -1171,6 +1534,9 @@ func main() {
 			if wd.r.Intn(4) == 0 {
 				s.rep.mirror = &fault{code: 1 + wd.r.Intn(16)}
 			}
+		}
+		if ep == "get-proof-by-hash" && strings.HasPrefix(s.req.tag, "good") && s.rep.err == nil && wd.r.Intn(3) == 0 {
+			s.req, s.rep = wd.randomMultiProof()
 		}
 		if !strings.HasPrefix(s.req.tag, "good") && !strings.HasPrefix(s.req.tag, "method:") && s.rep.err == nil && s.rep.mirror == nil && s.rep.cause != "none" {
 			// the reply classes are relative to the well-formed request they were built for; a request from
